@@ -1,6 +1,18 @@
 HOOK_COMMITS = ["02bc05e"]
 NOT_APPLICABLE = {}
 TEXT = {
+ "C10": {
+  "text": "Per contract a Lean state machine that follows the Go ReceiveBlock code; kernel-checked: the sum of recorded "
+          "entries stays covered by the balance through every receive (applied or refunded) and every history, the per-"
+          "beneficiary fused total equals the sum of its fusion entries, each withdrawal pays only the recorded owner, only "
+          "after the lock matured, exactly the recorded amount, and the same withdrawal cannot pay twice. Tied to the tree by "
+          "the contract stream (real node, every receive predicted, storage compared after each momentum) and model-free "
+          "monitors on the real storage and blocks.",
+  "design_ref": "§3 C10",
+  "note": "Reward bookkeeping, liquidity and bridge are not in the liability sums; lock periods are parameters "
+          "(theorems hold for all values, production values regenerated from the tree).",
+  "technique": "Lean 4 proof (invariant by induction over receives) + differential replay on a real node + liability monitor",
+ },
  "C01": {
   "text": "Abstract ledger model (balances, confirmed sends, receive markers, token contract issue/mint/burn/update) with "
           "kernel-checked guards (no send above balance, zero-token sends empty) and the negative witness for the "
